@@ -113,7 +113,11 @@ def run(ctx, rep):
                 cs = [e for e in cp[0].effects if e[0] == "call"]
                 ok = len(cs) == 1 and cs[0][1] == "validation::check_container" and cs[0][2] == ("node", "diagnostics") and len(cp[0].effects) == 1
     rep.check(ok, "T3", "C08|T3|callback", cfg.where(cc), "check_containers = walk_types(ast, |t| check_container(t, diagnostics)) and nothing else")
+    import common_g
+    rep.floor("IN", "grammar actions feeding this rule", common_g.emit_inputs(ctx, rep, "C08"), 5)
     rep.assumptions += ["TB-1 rustc MIR", "TB-4 tabulator", "a String-kind node has name \"String\" (grammar wiring rule, C02)",
                         "arity of generic_types per kind is the constructor invariant proved under C01 (D4)",
                         "std iterators (slice::Iter, for_each) visit every element once, in order"]
-    rep.not_decided.append("that source types land in the right category (C05)")
+    rep.rule("RES", "inherits C05 rules A-E (re-evaluated here): the category this table is indexed by is the one resolution assigns - walker reaches every type node, resolve_type classifies per AIDL scoping, built-in tables, name-matching predicates")
+    import c05
+    c05.resolution_rules(ctx, rep, "C08")
